@@ -30,6 +30,7 @@ type Cell struct {
 	AS []string          `json:"as,omitempty"`
 	AI []int64           `json:"ai,omitempty"`
 	B  *string           `json:"b,omitempty"` // hex bytes delivered as a Go string
+	LL [][]string        `json:"ll,omitempty"` // Array(Tuple(String, String)) as clickhouse-go delivers it: [][]interface{}
 }
 
 func (c Cell) value() driver.Value {
@@ -50,6 +51,14 @@ func (c Cell) value() driver.Value {
 		return c.AI
 	case c.B != nil:
 		return unhex(*c.B)
+	case c.LL != nil:
+		res := make([][]interface{}, len(c.LL))
+		for i, kv := range c.LL {
+			for _, x := range kv {
+				res[i] = append(res[i], x)
+			}
+		}
+		return res
 	}
 	return nil
 }
